@@ -101,7 +101,7 @@ func (x *X) accesses(root ast.Node) []access {
 						if p, ok := rt.(*types.Pointer); ok {
 							rt = p.Elem()
 						}
-						if nt, ok := rt.(*types.Named); ok && nt.Obj().Pkg() != nil && nt.Obj().Pkg().Path() == "sync/atomic" {
+						if nt, ok := types.Unalias(rt).(*types.Named); ok && nt.Obj().Pkg() != nil && nt.Obj().Pkg().Path() == "sync/atomic" {
 							for _, a := range v.Args {
 								ast.Inspect(a, visit)
 							}
